@@ -79,6 +79,14 @@ func (c *recUDPConn) RemoveNatEntry() {
 	defer c.r.mu.Unlock()
 	c.r.evs = append(c.r.evs, udpEv{Kind: "remove", Assoc: c.id})
 }
+// AddCipherSearch: the server finished the key search for a datagram of a client without an
+// association (used by the harness only to know that the datagram has been processed)
+func (r *recUDP) AddCipherSearch(found bool, d time.Duration) {
+	r.mu.Lock()
+	defer r.mu.Unlock()
+	r.evs = append(r.evs, udpEv{Kind: "search", Status: fmt.Sprint(found)})
+}
+
 func (r *recUDP) snapshot(from int) []udpEv {
 	r.mu.Lock()
 	defer r.mu.Unlock()
@@ -129,7 +137,7 @@ func runUDPCase(cs *udpCaseSpec) (obs []udpOpObs, tports []int, fatal string, sh
 	cl := service.NewCipherList()
 	cl.Update(makeList(cs.Cfg))
 	rec := &recUDP{}
-	h := service.NewPacketHandler(udpNatTimeout, cl, rec, nil)
+	h := service.NewPacketHandler(udpNatTimeout, cl, rec, rec)
 	if !cs.Validate {
 		h.SetTargetIPValidator(func(net.IP) error { return nil })
 	}
@@ -238,10 +246,15 @@ func runUDPCase(cs *udpCaseSpec) (obs []udpOpObs, tports []int, fatal string, sh
 		}
 		// wait for the datagram to show up at a target (matched by payload: a late datagram of an
 		// earlier operation must not be attributed to this one), for a rejection report, or for silence
+		// Timing: 150 ms of silence normally means "dropped"; but once the server's own record says
+		// the datagram was forwarded (or the server has not even finished looking at it: no
+		// key-search and no report event yet, i.e. the machine is slow) the wait extends to 2.5 s,
+		// so that a busy machine cannot turn into a missing datagram.
 		var got *udpTargetMsg
-		waitUntil := time.Now().Add(150 * time.Millisecond)
+		t0 := time.Now()
+		var searchSeen time.Time
 	wait:
-		for time.Now().Before(waitUntil) {
+		for {
 			select {
 			case m := <-tch:
 				if bytes.Equal(m.payload, payload) && op.Kind == "honest" {
@@ -251,10 +264,31 @@ func runUDPCase(cs *udpCaseSpec) (obs []udpOpObs, tports []int, fatal string, sh
 				}
 				ob.Stale++
 			case <-time.After(5 * time.Millisecond):
+				processed, forwarded := false, false
 				for _, e := range rec.snapshot(mark) {
 					if e.Kind == "pktclient" && e.Status != "OK" {
 						break wait
 					}
+					if e.Kind == "pktclient" && e.Status == "OK" {
+						processed, forwarded = true, true
+					}
+					if e.Kind == "search" {
+						if searchSeen.IsZero() {
+							searchSeen = time.Now()
+						}
+						// the key search is done: validation, the NAT entry and the write follow in the
+						// same goroutine without blocking; give them 200 ms
+						if e.Status == "false" || time.Since(searchSeen) > 200*time.Millisecond {
+							processed = true
+						}
+					}
+				}
+				el := time.Since(t0)
+				if el > 2500*time.Millisecond {
+					break wait
+				}
+				if el > 150*time.Millisecond && processed && !forwarded {
+					break wait // looked at and not forwarded: dropped
 				}
 			}
 		}
@@ -269,16 +303,30 @@ func runUDPCase(cs *udpCaseSpec) (obs []udpOpObs, tports []int, fatal string, sh
 			}
 			ob.SockIdx = portIdx[m.src.Port]
 			var recv [][]byte
-			for _, rp := range op.Replies {
+			for ri, rp := range op.Replies {
 				targets[m.target].WriteToUDP(genBytes(rp[0], uint32(rp[1])), m.src)
 				buf := make([]byte, 70000)
-				wait := 400 * time.Millisecond
-				if rp[0] > 60000 {
-					wait = 150 * time.Millisecond // oversized replies are expected to be dropped
-				}
-				c.SetReadDeadline(time.Now().Add(wait))
-				if n, _, err := c.ReadFrom(buf); err == nil {
-					recv = append(recv, append([]byte{}, buf[:n]...))
+				// wait for the reply at the client; stop early once the server reports that it did not
+				// send it (oversized: ERR_WRITE / ERR_PACK); a slow machine gets up to 2.5 s
+				tr := time.Now()
+				for time.Since(tr) < 2500*time.Millisecond {
+					c.SetReadDeadline(time.Now().Add(40 * time.Millisecond))
+					if n, _, err := c.ReadFrom(buf); err == nil {
+						recv = append(recv, append([]byte{}, buf[:n]...))
+						break
+					}
+					nt, dropped := 0, false
+					for _, e := range rec.snapshot(mark) {
+						if e.Kind == "pkttarget" {
+							if nt == ri && e.Status != "OK" {
+								dropped = true
+							}
+							nt++
+						}
+					}
+					if dropped {
+						break
+					}
 				}
 			}
 			ob.recv = recv
